@@ -138,10 +138,10 @@ def oracle_case(case):
         return {'case': case, 'what': what, 'expected': expected, 'observed': observed}
     try:
         G.validate(case)
-        exp = G.Spec(case).expected()
     except Exception:
         # not a case of the grammar (a shrinking step, a hand-written replay): the oracle does not judge it
         return None
+    exp = G.Spec(case).expected()      # a valid case always has a skeleton: an exception here is a harness defect
     want0 = G.coalesce(G.first_choice(exp), case['strip'], case['method'])
     try:
         out = render_case(case)
@@ -167,13 +167,13 @@ def oracle_case(case):
 # --------------------------------------------------------------------------
 # model correspondence (filled in by the Lean side: harness/c01_wire.py)
 
-def compare_with_model(cases, outs, res):
+def compare_with_model(cases, outs, res, streams=(0, 1, 2, 3)):
     try:
         from harness import c01_wire
     except ImportError:
         res.count('model:absent', len(cases))
         return
-    c01_wire.compare(cases, outs, res, reparse)
+    c01_wire.compare(cases, outs, res, reparse, streams)
 
 
 # --------------------------------------------------------------------------
@@ -253,16 +253,84 @@ def shard(arg):
     return res
 
 
+def judge_cases(cases, res, tag):
+    outs = []
+    for case in cases:
+        res.evaluations += 1
+        res.count(tag)
+        key = nontrivial_key(case)
+        if key:
+            res.nontrivial.add(key)
+        try:
+            G.validate(case)
+            f = oracle_case(case)
+        except Exception as e:
+            f = {'case': case, 'what': 'generator produced a case outside its grammar: %r' % (e,), 'expected': None, 'observed': None}
+        if f:
+            res.failures.append(f)
+            outs.append(None)
+        else:
+            try:
+                outs.append(render_case(case))
+            except Exception:
+                outs.append(None)
+    compare_with_model(cases, outs, res)
+
+
+def matrix_shard(arg):
+    """every substitution site x every critical payload (deterministic)"""
+    method, strip, impl = arg
+    res = Result()
+    judge_cases(G.matrix_cases(method, strip, impl), res, 'matrix:%s/strip:%s/impl:%s' % (method, strip, impl))
+    return res
+
+
+def finding_zone_shard(arg):
+    """model vs code inside the zones of the recorded findings (the model is bug-compatible there): the listed
+    inputs and close variants; no oracle verdict here"""
+    impl = arg
+    res = Result()
+    cases = []
+    for canon in sorted(listed_inputs()):
+        c = json.loads(canon)
+        for method in METHODS:
+            for strip in (False, True):
+                for s in (None, '', ' ', '\t', 'a\tb', 'a\r\nb', '\n', 'a \n\n b'):
+                    c2 = json.loads(canon)
+                    c2.update({'method': method, 'strip': strip, 'impl': impl})
+                    if s is not None:
+                        if c2['data']['v0'].get('k') != 's':
+                            continue
+                        c2['data']['v0'] = {'k': 's', 's': s}
+                    cases.append(c2)
+    outs = []
+    for c in cases:
+        res.evaluations += 1
+        res.count('finding-zone-correspondence')
+        try:
+            outs.append(render_case(c))
+        except Exception:
+            outs.append(None)
+    compare_with_model(cases, outs, res, streams=(0, 1))
+    return res
+
+
 def run(ctx):
     nsh = 12
-    per = ctx.n(700, 8400)
+    per = ctx.n(500, 8400)
     res = Result()
     for impl in ('c', 'py'):
         n = per if impl == 'c' else per // 3
         for r in pmap('harness.props.c01', 'shard', [(ctx.seed, i, n, impl) for i in range(nsh)], impl=impl, procs=nsh):
             res.merge(r)
+    for impl in ('c', 'py'):
+        args = [(m, st, impl) for m in METHODS for st in (False, True)]
+        for r in pmap('harness.props.c01', 'matrix_shard', args, impl=impl, procs=6):
+            res.merge(r)
+        for r in pmap('harness.props.c01', 'finding_zone_shard', [impl], impl=impl, procs=1):
+            res.merge(r)
     res.rule = ('templates drawn from a grammar nesting every substitution site x payload kinds x 3 methods x 2 strip settings x both '
-                'Markup implementations; non-trivial = some context value contains one of & < > "; distinct by (method, strip, template, data)')
+                'Markup implementations, plus the deterministic matrix of every site x every critical payload; non-trivial = some context value contains one of & < > "; distinct by (method, strip, template, data)')
     res.samples = res.samples[:6]
     return res
 
